@@ -107,7 +107,8 @@ Token* ParserForXMLSchema::processParen() {
 Token* ParserForXMLSchema::processBackReference() {
 
     // XML Schema doesn't support back references
-    ThrowXMLwithMemMgr(RuntimeException, XMLExcepts::Regex_NotSupported, getMemoryManager());
+    // (a malformed expression is reported as ParseException, like every other syntax error)
+    ThrowXMLwithMemMgr(ParseException, XMLExcepts::Regex_NotSupported, getMemoryManager());
     return 0; // for compilers that complain about no return value
 }
 
